@@ -376,6 +376,19 @@ impl Scenario for C08 {
             for _ in 0..n {
                 msgs.push(HexBytes(self_delimiting(&mut wl, &sw, opts, ctx.obs)));
             }
+            if wl.chance(1, 8) {
+                // two different messages that a 32-bit fingerprint cannot
+                // tell apart, back to back (or with one message between them)
+                let (x, y, _) = crate::collisions::colliding_pair(&mut wl);
+                let at = wl.usize_below(msgs.len() + 1);
+                msgs.insert(at, HexBytes(spec_encode(&y)));
+                if wl.chance(1, 4) {
+                    let other = self_delimiting(&mut wl, &sw, opts, ctx.obs);
+                    msgs.insert(at, HexBytes(other));
+                }
+                msgs.insert(at, HexBytes(spec_encode(&x)));
+                ctx.obs.count("probe:fingerprint-colliding-messages-back-to-back");
+            }
             // trailing octets: nothing, a few octets, a further valid
             // message, a valid AVP record, a UTF-8 continuation
             let trail = if ctx.run % 256 == 9 && k == 0 {
